@@ -90,10 +90,10 @@ class ShapeEval:
             return path_str(t)[:200]
 
     def const_int(self, t):
-        t0 = mir.uncast(unref(t))
-        if t0[0] == "int":
-            return t0[1]
-        raise Unrecognised("expected an integer literal, got %s" % path_str(t)[:100])
+        v = fold_int(unref(t))
+        if v is not None:
+            return v & 0xFF if t[0] == "cast" and self.prog.ty(t[3])["s"] == "u8" else v
+        raise Unrecognised("expected an integer constant expression, got %s" % path_str(t)[:100])
 
     # ---- evaluation
     def type_info(self, fn_path):
@@ -308,3 +308,25 @@ def _root_through_casts(t):
             t = t[2]
         else:
             return t
+
+
+def fold_int(t):
+    """value of a constant integer expression term (literals, casts, arithmetic the compiler left unfolded at mir-opt-level 0)"""
+    k = t[0]
+    if k == "int":
+        return t[1]
+    if k == "cast":
+        return fold_int(unref(t[2]))
+    if k == "field" and t[1][0] == "binop" and t[1][1].endswith("WithOverflow") and t[2] == 0:
+        return fold_int(("binop", t[1][1][: -len("WithOverflow")], t[1][2], t[1][3]))
+    if k == "binop":
+        a, b = fold_int(unref(t[2])), fold_int(unref(t[3]))
+        if a is None or b is None:
+            return None
+        op = t[1].replace("Unchecked", "")
+        try:
+            return {"Add": a + b, "Sub": a - b, "Mul": a * b, "Shl": a << b, "Shr": a >> b, "BitOr": a | b, "BitAnd": a & b, "BitXor": a ^ b,
+                    "Div": a // b if b else None, "Rem": a % b if b else None}.get(op)
+        except (ValueError, OverflowError):
+            return None
+    return None
